@@ -425,6 +425,8 @@ REGRESSIONS = [
     ("reserved-aug", simple_file([("S", [[R("A")]]), ("AUG", [[R("A")]])], ABX), "ERROR reserved-rule-name AUG"),
     ("reserved-augl", simple_file([("S", [[R("A")]]), ("AUGL", [[R("A")]])], ABX), "ERROR reserved-rule-name AUGL"),
     ("reserved-empty", simple_file([("S", [[R("A")]]), ("EMPTY", [[R("A")]])], ABX), "ERROR reserved-rule-name EMPTY"),
+    ("reference-aug", simple_file([("S", [[R("A")], [R("A"), R("AUG")]])], ABX), "ERROR reserved-reference AUG"),
+    ("reference-augl", simple_file([("S", [[R("A")], [R("AUGL"), R("A")]])], ABX), "ERROR reserved-reference AUGL"),
     ("rule-stop", simple_file([("S", [[R("A")]]), ("STOP", [[R("A")]])], ABX), "ERROR rule-and-terminal STOP"),
     ("terminals-only", dict(rules=None, terms=[dict(annot=None, name="A", rec=("str", "a"), meta=[])], imports=[]),
      "ERROR no-rules"),
@@ -507,6 +509,9 @@ def real_lines(r, site=None):
         mm = re.search(r"Terminal '([^']*)' is defined more than once", m)
         if mm:
             return ["ERROR duplicate-terminal " + mm.group(1)]
+        mm = re.search(r"'([^']*)' is a reserved name and can't be referenced", m)
+        if mm:
+            return ["ERROR reserved-reference " + mm.group(1)]
         mm = re.search(r"'([^']*)' is a reserved name", m)
         if mm:
             return ["ERROR reserved-rule-name " + mm.group(1)]
